@@ -147,6 +147,10 @@ func dischargeOne(o *Oblig, opts SolveOpts) {
 			o.Solver = sv.name
 			break
 		}
+		if want == "sat" {
+			// covers: only a refutation (unsat) matters; an undecided cover is not retried on the other solvers
+			break
+		}
 		_ = si
 	}
 	if o.Status == "" && want == "unsat" && !opts.noSplit {
